@@ -4,7 +4,7 @@
 cd "$(dirname "$0")/.."
 for d in seeded/*/; do
   id=$(basename $d)
-  prop=$(python3 -c "import json,sys; print(json.load(open('$d/meta.json'))['property'])" 2>/dev/null)
+  prop=$(python3 -c "import json,sys; m=json.load(open('$d/meta.json')); print(m.get('check_with', m['property']))" 2>/dev/null)
   [ -z "$prop" ] && continue
   out=$(tools/try_seed.sh $d $prop ${1:-quick} 2>&1)
   echo "$out" > $d/verified.txt
